@@ -6,6 +6,7 @@ package rt
 
 import (
 	"fmt"
+	"runtime"
 	"unsafe"
 
 	"github.com/koron-go/z80/internal/verif/sched"
@@ -218,4 +219,14 @@ func AcquireGlobal() {
 	if S != nil {
 		HB.Acquire(S.Current(), GlobalChanKey)
 	}
+}
+
+// Gosched replaces runtime.Gosched(): a fair yield (a thread that spins on Gosched waits for others).
+func Gosched() {
+	if S == nil {
+		runtime.Gosched()
+		return
+	}
+	NPoints++
+	S.Yield("runtime.Gosched")
 }
